@@ -2,7 +2,7 @@
    Property theorems only; proofs live in Proof/CountsProofs.v.  The definitions gen_start_states /
    gen_end_states are regenerated from enspara/msm/transition_matrices.py on every run. *)
 From Coq Require Import List ZArith Permutation.
-From EV Require Import PySlice CountsGen Counts CountsProofs.
+From EV Require Import PySlice CountsGen Counts CountsProofs CountsStrided.
 Import ListNotations.
 Open Scope Z_scope.
 
@@ -103,6 +103,27 @@ Proof. exact assigns_to_counts_spec. Qed.
 Print Assumptions c03_public_function_rejects_lag_below_one.
 
 (* Non-vacuity: a concrete non-trivial run of the model. *)
+(* ---- sliding window off: closed forms.  A trajectory of n assigned frames gives floor((n-1)/lag)
+   pairs; the matrix total is the sum of that over trajectories; with lag 1 the two window modes
+   coincide; the strided window never yields more pairs than the sliding one. *)
+Theorem c03_strided_pair_count : forall lag n, 1 <= lag -> npairs false lag n = Z.to_nat ((Z.of_nat n - 1) / lag).
+Proof. exact npairs_strided_closed. Qed.
+Print Assumptions c03_strided_pair_count.
+
+Theorem c03_total_strided : forall lag trjs, 1 <= lag ->
+  length (all_pairs false lag trjs) =
+  fold_right (fun t acc => (Z.to_nat ((Z.of_nat (length (strip t)) - 1) / lag) + acc)%nat) 0%nat trjs.
+Proof. exact total_pairs_strided. Qed.
+Print Assumptions c03_total_strided.
+
+Theorem c03_lag_one_modes_coincide : forall sliding n, npairs sliding 1 n = Z.to_nat (Z.of_nat n - 1).
+Proof. exact npairs_lag1. Qed.
+Print Assumptions c03_lag_one_modes_coincide.
+
+Theorem c03_strided_le_sliding : forall lag n, 1 <= lag -> (npairs false lag n <= npairs true lag n)%nat.
+Proof. exact npairs_strided_le_sliding. Qed.
+Print Assumptions c03_strided_le_sliding.
+
 Example c03_example :
   counts_matrix false 2 None [[0; 1; 1; 0; 1; -1; -1]; [1]; [1; 0; 0]] = Some [[0; 1]; [1; 1]]%nat
   /\ counts_matrix true 2 (Some 3) [[0; 1; 1; 0; 1]; [1]; [1; 0; 0]] = Some [[0; 1; 0]; [2; 1; 0]; [0; 0; 0]]%nat.
